@@ -284,8 +284,8 @@ Lemma sub_refl R : sub R R. Proof. intros x H; exact H. Qed.
 Lemma sub_trans A B C : sub A B -> sub B C -> sub A C. Proof. intros H1 H2 x H. auto. Qed.
 Lemma sub_cons k R : sub R (k :: R). Proof. intros x H. simpl. rewrite H. apply orb_true_r. Qed.
 
-Lemma resolved_note_revisit h k r st : resolved (note_revisit h k r st) = resolved st.
-Proof. unfold note_revisit. destruct (h && negb (mem_exp k r (g_expanded st))); reflexivity. Qed.
+Lemma resolved_note_revisit h e st : resolved (note_revisit h e st) = resolved st.
+Proof. unfold note_revisit. destruct (h && negb (mem_exp e (g_expanded st))); reflexivity. Qed.
 
 Section Resolver.
 Variable gmatch : bytes -> bytes -> bool.
@@ -328,9 +328,9 @@ Lemma append_mono fuel : mono_rec (append gmatch view fuel).
 Proof.
   induction fuel as [|f IH]; intros st p st' H; [discriminate|].
   cbn [append] in H. destruct p as [|c r].
-  - inversion H; subst. destruct (mem s_dot (resolved st)) eqn:E; [split; [apply sub_refl|auto]|].
+  - inversion H; subst. cbn [add_call resolved]. destruct (mem s_dot (resolved st)) eqn:E; [split; [apply sub_refl|auto]|].
     split; [apply sub_cons|]. intros Hd. constructor; auto. apply mem_false; auto.
-  - apply (loop_mono (append gmatch view f) IH [] st (c :: r) st' H).
+  - apply (loop_mono (append gmatch view f) IH [] (add_call (c :: r) st) (c :: r) st' H).
 Qed.
 
 Lemma follow_reqs_mono fuel reqs st st' :
@@ -484,7 +484,7 @@ Proof.
       * assert (Hk : In k (cand_keys view reqs)).
         { apply read_symlink_cand; auto. fold ts. destruct ts; [discriminate|congruence]. }
         pose proof (M_add k (resolved st) Hk Em) as Hlt.
-        destruct (each_target_ok f rec rest ts (add_expanded k rest (add_resolved k st)) Hrec Hrest)
+        destruct (each_target_ok f rec rest ts (add_expanded (cur, c, rest) (add_resolved k st)) Hrec Hrest)
           as (st' & E & S).
         { apply read_symlink_PC; auto. }
         { cbn [add_expanded add_resolved resolved]. lia. }
@@ -498,8 +498,8 @@ Lemma append_ok fuel : good_rec fuel (append gmatch view fuel).
 Proof.
   induction fuel as [|f IH]; intros st p Hp HM; [lia|].
   cbn [append]. destruct p as [|c r].
-  - eexists. split; [reflexivity|]. destruct (mem s_dot (resolved st)); [apply sub_refl|apply sub_cons].
-  - apply (loop_ok f (append gmatch view f) IH (c :: r) [] st); auto; [constructor|lia].
+  - eexists. split; [reflexivity|]. cbn [add_call resolved]. destruct (mem s_dot (resolved st)); [apply sub_refl|apply sub_cons].
+  - apply (loop_ok f (append gmatch view f) IH (c :: r) [] (add_call (c :: r) st)); auto; [constructor|cbn [add_call resolved]; lia].
 Qed.
 
 Lemma follow_reqs_ok fuel rs st :
@@ -533,7 +533,7 @@ Variable view : list node.
 Lemma append_root fuel st st' :
   append gmatch view fuel st [] = Ok st' -> mem s_dot (resolved st') = true.
 Proof.
-  destruct fuel as [|f]; [discriminate|]. cbn [append]. intros H. inversion H; subst.
+  destruct fuel as [|f]; [discriminate|]. cbn [append]. intros H. inversion H; subst. cbn [add_call resolved].
   destruct (mem s_dot (resolved st)) eqn:E; [exact E|]. simpl. reflexivity.
 Qed.
 
